@@ -18,6 +18,10 @@ CHECKS = {
          "Generated-schedule search with three history invariants checked on the complete event log of each run; deadlock verdicts are sound because the harness owns the loop (pending with nothing left to run). Threaded mode is sampled, not controlled. Exploration only.",
          "Trusted: virtual loop; 'accepted' = emit awaitable completed; pending emits are excused only where a zip input is observed over-full (starved sibling).",
          "DESIGN.md section 4 C03"),
+ "C04": ("Hypothesis-generated pipelines + schedules + fault plans with an instrumented RefCounter in every emission's metadata; history invariant over the event log at every callback-scheduling instant (provenance-based)",
+         "Generated-schedule search; the invariant is evaluated on the full event log of each run at every instant the repository's RefCounter schedules its callback: nothing derived from the element is pending, nothing derived from it starts later, nothing derived from it raised. Exploration only.",
+         "Trusted: provenance tagging of elements (harness/elements.py), virtual loop; accumulate state is treated as a digest (provenance cut); the flatten design limitation is a recorded known finding.",
+         "DESIGN.md section 4 C04"),
 }
 NOT_YET = "check not built yet in this session (the property is decidable with this technique; see DESIGN.md section 4)"
 
